@@ -156,6 +156,8 @@ def run_case(case):
                                     if caller:
                                         kwargs["params"] = {"q": "1"}
                                         kwargs["json"] = CALLER_JSON[caller]
+                                        if k == 0:
+                                            kwargs["cookies"] = {"cart": "c-1"}   # a per-request cookie: on this request, never on a later one
                                     captured.clear()
                                     n += 1
                                     lab = f"{label}|{rname}"
@@ -196,10 +198,17 @@ def run_case(case):
                                                 f"{name}: expected {val!r}, sent {vals}")
                                         elif len(variants) == 1 and vals != [val]:
                                             add("header", "header sent with more than the expected value", f"{name}: {vals} expected [{val!r}]")
-                                    # nothing from an earlier request may linger
-                                    for hname in ("x-a", "x-b", "x-n"):
+                                    # nothing from an earlier request may linger, and no credential may appear that the configuration does not call for
+                                    for hname in ("x-a", "x-b", "x-n", "authorization", "x-api-key", "x-extra"):
                                         if hname in sent and not any(hk.lower() == hname for hk in eh):
-                                            add("header", "a header nobody supplied for this request is on the wire", f"{hname}: {sent[hname]}")
+                                            add("header", "a header nobody supplied for this request is on the wire" if hname.startswith("x-") and hname not in ("x-api-key", "x-extra")
+                                                else "a credential header that the configuration does not call for is on the wire", f"{hname}: {sent[hname]}")
+                                    want_cart = bool(caller) and k == 0
+                                    has_cart = "cart=c-1" in sent.get("cookie", [""])[0]
+                                    if want_cart and not has_cart:
+                                        add("passthrough", "caller's per-request cookie not on the wire", f"cookie={sent.get('cookie')}")
+                                    if has_cart and not want_cart:
+                                        add("passthrough", "a cookie supplied for an earlier request is sent again", f"cookie={sent.get('cookie')}")
                                     wire.add("auth=" + ",".join(sent.get("authorization", ["-"])) + "|x-a=" + ",".join(sent.get("x-a", ["-"]))
                                              + "|x-api-key=" + ",".join(sent.get("x-api-key", ["-"])) + "|cookie=" + sent.get("cookie", ["-"])[0]
                                              + "|q=" + r.url.query.decode())
